@@ -36,12 +36,42 @@ def generate(rng, tier):
             r = rng.random()
             if r < ppush:
                 prev = [o for o in ops if o not in ("o", "l", "k")]
-                ops.append(prev[-1] if prev and rng.random() < 0.25 else rand_error_spec(rng))
+                k = rng.random()
+                if prev and k < 0.25: ops.append(prev[-1])                      # the same error again
+                elif k < 0.35: ops.append(rng.choice(["p-350", "p-350x" + hexs(b"input queue"), "c-350:" + hexs(b"mine"), "p-350x"]))    # a user-pushed overflow error
+                elif k < 0.42: ops.append("p%d" % rng.choice(std_codes()) + "x" + hexs(b"t" * rng.choice([200, 239, 240, 241, 242, 255, 256, 300])))   # very long extended text
+                else: ops.append(rand_error_spec(rng))
             elif r < ppush + (1 - ppush) * 0.6: ops.append("o")
             elif r < ppush + (1 - ppush) * 0.9: ops.append("l")
             else: ops.append("k")
         out.append(f"queue {cap} " + ",".join(ops))
+    return out + long_cases(tier)
+
+
+def long_cases(tier):
+    """histories longer than any 8/16-bit counter: implementation against the FIFO / overflow rule recomputed here"""
+    out = []
+    for cap, n in ([(0, 300), (0, 70000), (3, 300), (16, 70000)] if tier == "quick" else [(0, 300), (0, 65535), (0, 65536), (0, 65537), (0, 70000), (0, 200000), (3, 300), (16, 70000), (32, 70000)]):
+        ops = []
+        for i in range(n):
+            ops.append("p%d" % [-100, -200, -300, -113, -222, -410][i % 6] if i % 7 else "c%d:%s" % (i % 30000 + 1, hexs(b"n%d" % i)))
+            if i % 1000 == 999: ops.append("l")
+        ops += ["l", "o", "o", "l"]
+        out.append("queue %d %s" % (cap, ",".join(ops)))
     return out
+
+
+def simulate(line):
+    f = line.split(" ")
+    cap = int(f[1]); q = []; out = []
+    show = lambda o: ("E" + o[1:]) if o[0] == "p" else ("E" + o[1:].split(":")[0] + "c" + o.split(":")[1])
+    for o in f[2].split(","):
+        if o == "o": out.append(q.pop(0) if q else "N")
+        elif o == "l": out.append("L%d%s" % (len(q), "e" if not q else ""))
+        elif o == "k": q = []
+        elif cap and len(q) >= cap: q[-1] = "E-350"
+        else: q.append(show(o))
+    return " ".join(out + ["|"] + q)
 
 
 def harness_line(c): return c
@@ -49,6 +79,7 @@ def case_of_line(l): return l
 
 
 def coq_term(c):
+    if len(c) > 20000: return '"SKIP"'            # the long histories: judged by simulate()
     f = c.split(" ")
     cap = int(f[1])
     ops = [o for o in (f[2].split(",") if len(f) > 2 else []) if o]
@@ -62,6 +93,18 @@ def coq_term(c):
 
 
 def obs(s): return s          # C12 fixes every output and the content exactly
+
+
+def impl_oracle(c, r):
+    if r is None: return "no result from harness"
+    if r.startswith(("PANIC", "CRASH", "NOT-RUN", "HANG")): return "queue operation panicked / died: " + r[:120]
+    if len(c) > 20000:
+        want = simulate(c)
+        if r != want:
+            a, b = r.split(" "), want.split(" ")
+            i = next((k for k in range(min(len(a), len(b))) if a[k] != b[k]), min(len(a), len(b)))
+            return "long history: output %d is %s, the FIFO / overflow rule gives %s (lengths %d vs %d)" % (i, a[i] if i < len(a) else "-", b[i] if i < len(b) else "-", len(a), len(b))
+    return None
 
 
 def nontrivial(c, impl):
